@@ -13,6 +13,7 @@ import (
 	"pgregory.net/rapid"
 
 	"github.com/temporalio/s2s-proxy/common"
+	common122 "github.com/temporalio/s2s-proxy/proto/1_22/api/common/v1"
 	failure122 "github.com/temporalio/s2s-proxy/proto/1_22/api/failure/v1"
 	"github.com/temporalio/s2s-proxy/vfshared"
 )
@@ -22,9 +23,12 @@ type c18Case struct {
 	Paths []string `json:"paths"` // legacy struct paths populated (one = single path; several = all at once)
 	Depth int      `json:"depth"` // failure chain depth, every message invalid
 	Bad   string   `json:"bad"`   // invalid byte run injected (Go-quoted in the replay file by JSON escaping of bytes is lossy, so hex)
+	// Deco > 0: the failures of the chain carry what else a Failure can carry, rotating per level starting at Deco:
+	// 1 = an encoded_attributes payload, 2 = application failure info with details, 3 = both (timeout info), 0 = nothing
+	Deco int `json:"deco,omitempty"`
 }
 
-func c18Chain(depth int, bad string, sanitise bool) *failure122.Failure {
+func c18Chain(depth int, bad string, sanitise bool, deco int) *failure122.Failure {
 	var head, cur *failure122.Failure
 	for i := 0; i < depth; i++ {
 		msg := fmt.Sprintf("level%d-pre", i) + bad + "post"
@@ -32,6 +36,18 @@ func c18Chain(depth int, bad string, sanitise bool) *failure122.Failure {
 			msg = vfSanitize(msg)
 		}
 		f := &failure122.Failure{Message: msg, Source: "src", StackTrace: "trace"}
+		if deco > 0 {
+			pl := &common122.Payload{Metadata: map[string][]byte{"encoding": []byte("json/plain")}, Data: []byte(fmt.Sprintf(`{"message":"level%d","stack_trace":"\xff"}`, i))}
+			switch (deco + i) % 4 {
+			case 1:
+				f.EncodedAttributes = pl
+			case 2:
+				f.FailureInfo = &failure122.Failure_ApplicationFailureInfo{ApplicationFailureInfo: &failure122.ApplicationFailureInfo{Type: "T", NonRetryable: true, Details: &common122.Payloads{Payloads: []*common122.Payload{pl}}}}
+			case 3:
+				f.EncodedAttributes = pl
+				f.FailureInfo = &failure122.Failure_TimeoutFailureInfo{TimeoutFailureInfo: &failure122.TimeoutFailureInfo{TimeoutType: 2, LastHeartbeatDetails: &common122.Payloads{Payloads: []*common122.Payload{pl}}}}
+			}
+		}
 		if head == nil {
 			head = f
 		} else {
@@ -75,7 +91,7 @@ func c18Run(c c18Case, maxRepeat int) error {
 			if !ok {
 				return nil, fmt.Errorf("HARNESS: path %q not found under %s", ps, c.Root)
 			}
-			vfBuildLegacyAtPath(rv, p, c18Chain(c.Depth, bad, sanitise))
+			vfBuildLegacyAtPath(rv, p, c18Chain(c.Depth, bad, sanitise, c.Deco))
 		}
 		return m.(common.Marshaler).Marshal()
 	}
@@ -172,6 +188,13 @@ func TestVF_C18_Paths(t *testing.T) {
 				if err := c18Run(c, maxRepeat); err != nil {
 					c18Fail(t, st, part, c, err)
 				}
+				// the same cell with failures that carry payloads and failure info next to the message
+				cd := c
+				cd.Deco = 1 + idx%3
+				if err := c18Run(cd, maxRepeat); err != nil {
+					c18Fail(t, st, part, cd, err)
+				}
+				st.Case(vfshared.Fingerprint(cd), len(p) >= 2, "failures_carry_encoded_attributes_or_failure_info")
 				st.Case(vfshared.Fingerprint(c), len(p) >= 2, fmt.Sprintf("depth_%d", d))
 				if len(p) >= 3 && st.WantSample() {
 					st.Sample(c)
@@ -245,7 +268,7 @@ func TestVF_C18_Random(t *testing.T) {
 		g := tg[rapid.IntRange(0, len(tg)-1).Draw(rt, "root")]
 		k := rapid.IntRange(1, 4).Draw(rt, "npaths")
 		seen := map[string]bool{}
-		c := c18Case{Root: g.r.Name, Depth: rapid.IntRange(1, 10).Draw(rt, "depth"), Bad: c18Hex(rapid.SampledFrom(badRuns).Draw(rt, "bad"))}
+		c := c18Case{Root: g.r.Name, Depth: rapid.IntRange(1, 10).Draw(rt, "depth"), Bad: c18Hex(rapid.SampledFrom(badRuns).Draw(rt, "bad")), Deco: rapid.IntRange(0, 3).Draw(rt, "deco")}
 		maxLen := 0
 		for i := 0; i < k; i++ {
 			p := g.paths[rapid.IntRange(0, len(g.paths)-1).Draw(rt, "path")]
